@@ -238,16 +238,19 @@ pub fn step(m: &mut FragmentedMuxer, r: &mut RefModel, cfg: &FCfg, op: &FOp, out
     match op {
         FOp::Write { pts, dts, data, sync } => {
             let bytes = unhex(data);
-            let before = dbg(m);
-            let res = m.write_video(*pts, *dts, &bytes, *sync);
             let should_reject = r.last_dts.map(|l| *dts < l).unwrap_or(false);
+            // the state snapshot (derived Debug, linear in the queue) is taken whenever a
+            // rejection is due, and for every write while the queue is short; the 66 000-sample
+            // fragments of the scaling family would otherwise cost quadratic time
+            let before = if should_reject || r.fifo.len() <= 512 { dbg(m) } else { String::new() };
+            let res = m.write_video(*pts, *dts, &bytes, *sync);
             match (&res, should_reject) {
                 (Ok(()), true) => out.push(("C10", "write/accepted-decreasing-dts".into(), format!("dts {dts} accepted after {:?}", r.last_dts))),
                 (Err(e), false) => out.push(("C10", "write/rejected-valid".into(), format!("dts {dts} after {:?} rejected: {e:?}", r.last_dts))),
                 _ => {}
             }
             if res.is_err() {
-                if dbg(m) != before {
+                if !before.is_empty() && dbg(m) != before {
                     out.push(("C10", "write/rejected-write-changed-state".into(), format!("state before: {before} after: {}", dbg(m))));
                     out.push(("C05", "frag/rejected-write-changed-state".into(), format!("rejected write (dts {dts} after {:?}) altered the muxer state", r.last_dts)));
                 }
@@ -736,7 +739,11 @@ fn collect_run(ctx: &Ctx, prop: &'static str, over: Option<(&'static [WSym], usi
 fn scaling(ctx: &Ctx, prop: &'static str) -> Tally {
     let max = if ctx.thorough { 200 } else { 80 };
     let cfgs: Vec<FCfg> = configs(false).into_iter().filter(|c| c.via_builder && c.start_dts == 9000).collect();
-    let items: Vec<(FCfg, usize)> = cfgs.iter().flat_map(|c| (1..=max).map(move |n| (c.clone(), n))).collect();
+    let mut items: Vec<(FCfg, usize)> = cfgs.iter().flat_map(|c| (1..=max).map(move |n| (c.clone(), n))).collect();
+    // one fragment of more than 2^16 samples (sample_count and table sizes beyond 16 bits)
+    for c in cfgs.iter().take(if ctx.thorough { cfgs.len() } else { 1 }) {
+        items.push((c.clone(), 66_000));
+    }
     par_items(&items, ctx.seed, |idx, (cfg, n), t| {
         for pattern in 0..3usize {
             for cadence in [*n, (*n / 3).max(1)] {
@@ -847,7 +854,7 @@ pub fn check(ctx: &Ctx, prop: &'static str) -> i32 {
     let t2 = scaling(ctx, prop);
     tally.count("scaling_histories", t2.evaluations);
     tally.merge(t2);
-    meta.rule = format!("{} Scaling family: fragments of every sample count 1..={} x 3 decode-step patterns x 2 flush cadences x 4 codecs (one 66 KB sample in some), replayed with the same model. Look-alike family: decode time (5 byte alignments), decode delta, composition offset or payload spelling each of 9 box codes x 4 codecs.", meta.rule, if ctx.thorough { 200 } else { 80 });
+    meta.rule = format!("{} Scaling family: fragments of every sample count 1..={} x 3 decode-step patterns x 2 flush cadences x 4 codecs (one 66 KB sample in some) plus fragments of 66 000 samples, replayed with the same model. Look-alike family: decode time (5 byte alignments), decode delta, composition offset or payload spelling each of 9 box codes x 4 codecs.", meta.rule, if ctx.thorough { 200 } else { 80 });
     finish(ctx, &tally, meta)
 }
 
